@@ -177,7 +177,16 @@ pub fn c09(ctx: &mut Ctx, acc: &mut Acc) -> i32 {
         if bi % ctx.shards != ctx.shard {
             continue;
         }
-        let alpha_big: Vec<String> = (0..*n).map(|i| format!("s{i}")).collect();
+        // the strings whose ids sit at the width boundaries are the shortest there are ("", one byte, two bytes): for
+        // them a back-reference is longer than the literal, and still every repeat must be the back-reference
+        let boundaries = [62usize, 63, 64, 65, 8190, 8191, 8192, 8193, 65_534, 65_535, 65_536, 65_537, 69_999];
+        let shorts = ["", "a", "b", "é", "c", "zz", "d", "e", "yy", "f", "g", "ww", "h"];
+        let mut alpha_big: Vec<String> = (0..*n + 8).map(|i| format!("s{i}")).collect();
+        for (b, sh) in boundaries.iter().zip(shorts) {
+            if *b < *n {
+                alpha_big[*b] = sh.to_string();
+            }
+        }
         let mut rng = ctx.rng_for(0xC09 ^ 0xB16, "big", *n as u64);
         // introduce all strings, then cite them in a random order (some twice), mixed with plain writes
         let mut ops: Vec<Op> = (0..*n).map(|s| Op { dedup: true, s }).collect();
@@ -186,7 +195,20 @@ pub fn c09(ctx: &mut Ctx, acc: &mut Acc) -> i32 {
             ops.push(Op { dedup: !rng.chance(1, 10), s });
         }
         // the ids at the width boundaries, explicitly
-        for s in [62usize, 63, 64, 65, 8190, 8191, 8192, 8193, 65_534, 65_535, 65_536, 65_537, 69_999] {
+        for s in boundaries {
+            if s < *n {
+                ops.push(Op { dedup: true, s });
+            }
+        }
+        // strings introduced after those repeats, cited in turn, and the boundary strings once more: a reader whose
+        // numbering drifted on the way decodes other strings here
+        for s in *n..*n + 8 {
+            ops.push(Op { dedup: true, s });
+        }
+        for s in (*n..*n + 8).rev() {
+            ops.push(Op { dedup: true, s });
+        }
+        for s in boundaries {
             if s < *n {
                 ops.push(Op { dedup: true, s });
             }
